@@ -3,10 +3,7 @@
 # working tree, so it can run while something else uses /repo); the copy is removed afterwards
 set -u
 patch=$1; shift
-d=$(mktemp -d /tmp/sv-scratch-XXXXXX)
-git -C /repo archive HEAD pymablock | tar -x -C "$d"
-cp /repo/pymablock/_version.py "$d/pymablock/" 2>/dev/null
-( cd "$d" && patch -p1 -s < "$patch" ) || { echo "patch does not apply"; rm -rf "$d"; exit 2; }
+d=$(/verif/tools/scratch_tree.sh "$patch") || { echo "patch does not apply"; exit 2; }
 props=${@:-C01 C02 C03 C04 C05 C06 C07 C08 C09 C10 C11 C12 C13 C14 C16 C17 C18 C19 C20}
 cd /verif
 for p in $props; do
